@@ -325,7 +325,13 @@ func ClientRun(osenv *rsyncos.Env, opts *rsyncopts.Options, conn io.ReadWriter, 
 			}
 		}
 
-		stats, err := st.Do(crd, cwr, FileSystemRoot, paths, nil)
+		// When sending, the filter rules are applied locally
+		// (there is no remote sender to transmit them to).
+		exclusionList, err := sender.NewFilterRuleList(opts.FilterRules())
+		if err != nil {
+			return nil, err
+		}
+		stats, err := st.Do(crd, cwr, FileSystemRoot, paths, exclusionList)
 		if err != nil {
 			return nil, err
 		}
